@@ -108,6 +108,14 @@ from .parameters import Boolean, Event
 from ._utils import _to_async_gen, iscoroutinefunction, full_groupby
 
 
+# Expressions are marked out of date before anything evaluates one: the other
+# internal watchers (the synchronisation of an object that follows an
+# expression as a reference, dependent methods) have precedence -1, and at
+# the end of a batch watchers of equal precedence run in the order in
+# which they were queued, which depends on the order of the assignments.
+_INVALIDATE = -2
+
+
 def _watch_internally(owner, fn, names, precedence):
     """
     Internal watchers of expressions: fn hears of what every watcher hears
@@ -116,12 +124,16 @@ def _watch_internally(owner, fn, names, precedence):
     another type (1, True and 1.0 are different results).
     """
     owner.param._watch(fn, names, precedence=precedence)
-    def retyped(*events):
-        hidden = [event for event in events
-                  if type(event.old) is not type(event.new) and Comparator.is_equal(event.old, event.new)]
-        if hidden:
-            fn(*hidden)
-    owner.param._watch(retyped, names, onlychanged=False, precedence=precedence)
+    # (a partial, not a closure: it is deep-copied and pickled together
+    # with the expression fn belongs to)
+    owner.param._watch(partial(_retyped, fn), names, onlychanged=False, precedence=precedence)
+
+
+def _retyped(fn, *events):
+    hidden = [event for event in events
+              if type(event.old) is not type(event.new) and Comparator.is_equal(event.old, event.new)]
+    if hidden:
+        fn(*hidden)
 
 
 class Wrapper(Parameterized):
@@ -952,7 +964,7 @@ class reactive_ops:
         # The relays are internal watchers of the branch references that are
         # not dependencies of the condition anyway. They work in two steps: the consumers of the
         # expression are marked out of date once every expression has been
-        # invalidated (precedence -1) and before any callback of a user runs,
+        # invalidated (precedence -2) and before anything evaluates one,
         # so that a callback that raises cannot leave them stale; they are
         # notified among the other callbacks, in registration order.
         def relays(branch):
@@ -963,13 +975,12 @@ class reactive_ops:
                                     old=False, new=True, type='triggered')
                 watchers = trigger._param__private.watchers.get('value', {}).get('value', [])
                 for watcher in list(watchers):
-                    # (the expressions only: whatever else watches the
+                    # (the expressions, and the relays of a where() that
+                    # has this one in a branch: whatever else watches the
                     # trigger - an object following the expression as a
                     # reference - hears of it once, in the second step)
-                    fn = watcher.fn
-                    if (watcher.precedence < 0 and isinstance(getattr(fn, '__self__', None), rx)
-                            and getattr(fn, '__name__', '').startswith('_invalidate')):
-                        fn(event)
+                    if watcher.precedence <= _INVALIDATE + 0.5:
+                        watcher.fn(event)
             def notify(*events):
                 if not selects(branch):
                     return
@@ -980,7 +991,7 @@ class reactive_ops:
             refs = [r for r in refs if not any(r is p for p in params)]
             for _, ps in full_groupby(refs, lambda r: id(r.owner)):
                 names = [r.name for r in ps]
-                _watch_internally(ps[0].owner, invalidate, names, -0.5)
+                _watch_internally(ps[0].owner, invalidate, names, _INVALIDATE + 0.5)
                 _watch_internally(ps[0].owner, notify, names, 0)
         def ternary(condition, _):
             return resolve_value(x) if condition else resolve_value(y)
@@ -1661,9 +1672,9 @@ class rx:
             for _, params in full_groupby(self._fn_params, lambda x: id(x.owner)):
                 fps = [p.name for p in params if p in self._root._fn_params]
                 if fps:
-                    _watch_internally(params[0].owner, self._invalidate_obj, fps, -1)
+                    _watch_internally(params[0].owner, self._invalidate_obj, fps, _INVALIDATE)
         for _, params in full_groupby(self._internal_params, lambda x: id(x.owner)):
-            _watch_internally(params[0].owner, self._invalidate_current, [p.name for p in params], -1)
+            _watch_internally(params[0].owner, self._invalidate_current, [p.name for p in params], _INVALIDATE)
 
     def _invalidate_current(self, *events):
         if all(event.obj is self._trigger for event in events):
